@@ -23,6 +23,7 @@ const (
 	EndBound      EndKind = "bound-exceeded"
 	EndInfeasible EndKind = "infeasible"
 	EndStop       EndKind = "stop"
+	EndMerged     EndKind = "merged"
 )
 
 type End struct {
@@ -659,6 +660,19 @@ func (r *Run) step(st *State) error {
 		return unknownf("fell off block")
 	}
 	in := f.Block.Instrs[f.PC]
+	if st.Hook != nil {
+		if po, ok := st.Hook.(*PO); ok {
+			if st.Resume != nil && st.Resume.instr != in {
+				st.Resume = nil
+			}
+			if st.Resume == nil && po.isSite(r, st, in) {
+				if _, merged := po.atSite(st, in.Pos()); merged {
+					return pathEnd{EndMerged, ""}
+				}
+				f = st.top()
+			}
+		}
+	}
 	if r.Eng.Debug {
 		fmt.Printf("  [%s b%d.%d] %s\n", f.Fn.Name(), f.Block.Index, f.PC, in.String())
 	}
@@ -887,6 +901,32 @@ func (r *Run) exec(st *State, f *Frame, in ssa.Instruction) error {
 		var args []Value
 		for _, a := range c.Args {
 			args = append(args, r.get(st, a))
+		}
+		if po, ok := st.Hook.(*PO); ok && st.Hook != nil {
+			var fv Func
+			if c.IsInvoke() {
+				ifc, ok := r.get(st, c.Value).(Iface)
+				if !ok || ifc.T == nil {
+					return unknownf("go on bad interface")
+				}
+				fn := r.Eng.Prog.LookupMethod(ifc.T, c.Method.Pkg(), c.Method.Name())
+				if fn == nil {
+					return unknownf("go: method not found")
+				}
+				fv = Func{Fn: fn}
+				args = append([]Value{ifc.V}, args...)
+			} else {
+				var ok bool
+				fv, ok = r.get(st, c.Value).(Func)
+				if !ok {
+					return unknownf("go on %T", r.get(st, c.Value))
+				}
+			}
+			if err := po.spawn(st, fv, args, x.Pos()); err != nil {
+				return err
+			}
+			f.PC++
+			return nil
 		}
 		if c.IsInvoke() {
 			ifc, ok := r.get(st, c.Value).(Iface)
@@ -1129,4 +1169,13 @@ func (st *State) concOf(t *smt.Term) (*smt.Term, bool) {
 		return v.(*smt.Term), true
 	}
 	return nil, false
+}
+
+
+// pushCallValue starts fn(args) as the root frame of a thread.
+func (r *Run) pushCallValue(st *State, fn Func, args []Value) error {
+	if fn.Fn == nil {
+		return unknownf("thread entry is not a function")
+	}
+	return r.pushCall(st, fn.Fn, args, fn.Bind, nil)
 }
